@@ -153,7 +153,9 @@ Definition plan_safe (e : env) (fuel : nat) (pe : penv) (to_dir : bool) (mh : op
   | Some _ => false
   | None =>
       let whops := rhops e fuel wfs in
-      alloc_ok whops [] (pl_alloc pl)
+      (* FromX starts from a zero value: the receiver's previous content is untyped *)
+      (to_dir || pl_reset pl)
+      && alloc_ok whops [] (pl_alloc pl)
       && forallb (fun a => zero_wf e fuel (snd a)) (pl_alloc pl)
       && forallb (stmt_ok pe to_dir mh (rleaves e fuel rfs) (rleaves e fuel wfs) whops (map fst (pl_alloc pl))) (pl_stmts pl)
   end.
